@@ -239,6 +239,225 @@ Example C15_example_order :
   sort_cmp XZ (Plain Str) s_None s_true = Ok Gt /\ sort_cmp XZ (Plain TD) (0, 5) (1, 0) = Ok Lt.
 Proof. vm_compute. repeat split. Qed.
 
+
+(* ================================================================================================== *)
+(* Audit (notes/C15.md, "Audit matrix"; Proofs/Audit15.v)                                               *)
+From Tevec Require Import Proofs.Audit15.
+From Tevec Require Model.Time.
+
+(* (A1) the premise of (6) about the sentinel is exact: a canonical non-null numeric value cast to DateTime / TimeDelta /
+        Time is null EXACTLY when the i64 it passes through is i64::MIN (every numeric source, plain or Option) *)
+Theorem C15_cast_to_time_null_iff_sentinel :
+  forall (F : Type) (X : Ext F) (s t : ty) (v : val s) (w : val t),
+    num_src s = true -> is_time_ty t = true ->
+    canonical X s v = true -> is_none X s v = false -> cast X s t v = Ok w ->
+    (is_none X t w = true <-> src_i64 X s v = Some i64min).
+Proof. exact @cast_to_time_null_iff. Qed.
+
+(* (A2) the other premise of (6): TimeDelta -> i64 / Option<i64>.  Microseconds in range: the quotient toward zero;
+        overflowing microseconds: the null of the target (None, resp. the i64::MIN sentinel); months <> 0: panic *)
+Theorem C15_cast_timedelta_to_i64 :
+  forall (F : Type) (X : Ext F) (d : Z * Z),
+    (forall q, fst d = 0 -> td_micros d = Some q ->
+       cast X (Plain TD) (Opt (N I64)) d = Ok (Some q) /\ cast X (Plain TD) (Plain (N I64)) d = Ok q /\
+       q = Z.quot (snd d) 1000 /\ i64min <= q <= 2 ^ 63 - 1) /\
+    (fst d = 0 -> td_micros d = None ->
+       cast X (Plain TD) (Opt (N I64)) d = Ok None /\ cast X (Plain TD) (Plain (N I64)) d = Ok i64min) /\
+    (forall u, fst d <> 0 -> fst d <> i32min ->
+       cast X (Plain TD) (Plain (N u)) d = Panic OtherPanic /\ cast X (Plain TD) (Opt (N u)) d = Panic OtherPanic).
+Proof.
+  intros F X d. split; [intros q; apply cast_td_i64_in_range|]. split; [apply cast_td_i64_overflow|].
+  intros u. apply cast_td_months_panics.
+Qed.
+
+(* (A3) a null source and a target that CANNOT represent a null: a panic, never a made-up value - None -> integer / bool,
+        "None" -> integer / bool, NaT -> integer / bool; the raw views DateTime / Time -> i64 return the sentinel itself
+        (float NaN -> integer follows the language's `as`, theorem (7)) *)
+Theorem C15_cast_null_to_nonnullable_panics :
+  forall (F : Type) (X : Ext F),
+    (forall a b, implemented (Opt a) (Plain b) = true -> b_can_null b = false ->
+       cast X (Opt a) (Plain b) None = Panic OtherPanic) /\
+    (forall b, implemented (Plain Str) (Plain b) = true -> b_can_null b = false ->
+       cast X (Plain Str) (Plain b) s_None = Panic OtherPanic) /\
+    (forall a u (v : bval a), is_time a = true -> is_float u = false -> nt_eqb u I64 = false ->
+       b_is_none X a v = true ->
+       cast X (Plain a) (Plain (N u)) v = Panic OtherPanic /\ cast X (Plain a) (Plain Bool) v = Panic OtherPanic) /\
+    (forall ns, cast X (Plain DT) (Plain (N I64)) i64min = Ok i64min /\
+                cast X (Plain TM) (Plain (N I64)) i64min = Ok i64min /\
+                cast X (Plain TD) (Plain (N I64)) (i32min, ns) = Panic OtherPanic).
+Proof.
+  intros F X. split; [apply cast_none_to_nonnullable_panics|]. split; [apply cast_text_null_to_nonnullable_panics|].
+  split; [intros a u v; apply cast_nat_to_nonnullable_panics|apply cast_nat_to_i64_is_the_sentinel].
+Qed.
+
+(* (A4) (5) says "if the cast returns": which null casts into a NULLABLE target do not return is a finite list, all by
+        design (Option<bool> -> time, "None" -> DateTime / TimeDelta / f32 / f64 parsers, DateTime <-> TimeDelta
+        unreachable!()); every other implemented pair returns on every null *)
+Theorem C15_cast_null_total_or_panics_by_design :
+  forall (F : Type) (X : Ext F), ExtLaws X -> forall (s t : ty) (v : val s),
+    implemented s t = true -> can_null t = true -> is_none X s v = true ->
+    if null_panics s t then cast X s t v = Panic OtherPanic else exists w, cast X s t v = Ok w.
+Proof. exact @cast_null_total. Qed.
+
+(* (A5) vabs, the values: integers get the mathematical |x| (again in range), unsigned are untouched, the only panic is
+        the overflow of a signed minimum (debug build), Option re-wraps *)
+Theorem C15_vabs_values :
+  forall (F : Type) (X : Ext F) (x : Z) (f : F),
+    (n_abs X I32 x = if x =? imin I32 then Panic Overflow else Ok (Z.abs x)) /\
+    (n_abs X I64 x = if x =? imin I64 then Panic Overflow else Ok (Z.abs x)) /\
+    (n_abs X Isize x = if x =? imin Isize then Panic Overflow else Ok (Z.abs x)) /\
+    n_abs X U8 x = Ok x /\ n_abs X U64 x = Ok x /\ n_abs X Usize x = Ok x /\
+    n_abs X F32 f = Ok (fabs X f) /\ n_abs X F64 f = Ok (fabs X f) /\
+    (forall n, is_signed n = true -> imin n < x <= imax n -> 0 <= Z.abs x <= imax n).
+Proof.
+  intros F X x f. destruct (n_abs_int_value X I32 x) as (A1 & A2 & A3 & A4 & A5 & A6).
+  repeat split; try assumption; try reflexivity;
+    destruct (n_abs_signed_in_range X n x H H0) as [[B1 B2] _]; assumption.
+Qed.
+
+Theorem C15_vabs_rewraps_and_panics_only_on_signed_min :
+  forall (F : Type) (X : Ext F) (n : nt),
+    (forall x a : nval n, n_abs X n x = Ok a -> n_is_none X n a = false ->
+       vabs X true n (Some x) = Ok (Some a) /\ vabs X true n None = Ok None /\ vabs X false n x = Ok a) /\
+    (forall (shape : bool) (v : val (if shape then Opt (N n) else Plain (N n))) k,
+       vabs X shape n v = Panic k -> k = Overflow /\ is_signed n = true).
+Proof.
+  intros F X n. split; [intros x a; apply vabs_opt_value|intros shape v k; apply vabs_panics_only_overflow].
+Qed.
+
+(* (A6) IsNone::map: applied to the inner value of a non-null; Option source: None gives U::none(); a plain source
+        (overridden in every non-Option impl) applies f to the value whatever it is - also to NaN / "None" / NaT - and the
+        nullness of the result is that of f's result *)
+Theorem C15_map_spec :
+  forall (F : Type) (X : Ext F) (s u : ty) (f : inner s -> inner u) (v : val s),
+    (forall x, to_opt X s v = Some x -> map_ X s u f v = Ok (from_inner X u (f x))) /\
+    (forall b (E : s = Opt b), eq_rect s val v (Opt b) E = None -> map_ X s u f v = none X u) /\
+    (forall x w, to_opt X s v = Some x -> map_ X s u f v = Ok w -> is_none X u w = b_is_none X (base u) (f x)).
+Proof.
+  intros F X s u f v. destruct (map_spec X s u f v) as [H1 H2]. split; [exact H1|]. split; [exact H2|].
+  intros x w. apply map_result_nullness.
+Qed.
+
+Theorem C15_map_plain_source_applies_f_to_nulls_too :
+  forall (F : Type) (X : Ext F) (b : bt) (u : ty) (f : bval b -> inner u) (v : bval b),
+    map_ X (Plain b) u f v = Ok (from_inner X u (f v)).
+Proof. exact @map_plain_applies_f. Qed.
+
+(* (A7) casts of the non-numeric pairs, the values: bool -> numeric / String / Option<bool>; numeric -> bool *)
+Theorem C15_cast_bool_values :
+  forall (F : Type) (X : Ext F) (b : bool),
+    cast X (Plain Bool) (Plain (N I32)) b = Ok (if b then 1 else 0) /\
+    cast X (Plain Bool) (Plain (N I64)) b = Ok (if b then 1 else 0) /\
+    cast X (Plain Bool) (Plain (N U8)) b = Ok (if b then 1 else 0) /\
+    cast X (Plain Bool) (Plain (N U64)) b = Ok (if b then 1 else 0) /\
+    cast X (Plain Bool) (Plain (N Usize)) b = Ok (if b then 1 else 0) /\
+    cast X (Plain Bool) (Plain (N Isize)) b = Ok (if b then 1 else 0) /\
+    cast X (Plain Bool) (Plain (N F64)) b = Ok (z2f64 X (if b then 1 else 0)) /\
+    cast X (Plain Bool) (Plain (N F32)) b = Ok (z2f32 X (if b then 1 else 0)) /\
+    cast X (Plain Bool) (Plain Str) b = Ok (if b then s_true else s_false) /\
+    cast X (Plain Bool) (Opt Bool) b = Ok (Some b) /\ cast X (Plain Bool) (Plain Bool) b = Ok b.
+Proof. exact @cast_bool_values. Qed.
+
+Theorem C15_cast_numeric_to_bool :
+  forall (F : Type) (X : Ext F) (a : nt) (v : nval a),
+    cast X (Plain (N a)) (Plain Bool) v =
+      (let i : Z := as_nn X a I32 v in if i =? 0 then Ok false else if i =? 1 then Ok true else Panic OtherPanic) /\
+    cast X (Opt (N a)) (Plain Bool) (Some v) = cast X (Plain (N a)) (Plain Bool) v /\
+    cast X (Opt (N a)) (Plain Bool) None = Panic OtherPanic.
+Proof. exact @cast_num_to_bool. Qed.
+
+(* (A8) integer -> integer `as` (every integer source: as_nn s u = z_to s u): the value is preserved EXACTLY WHEN it is
+        representable in the target; otherwise the result is in range and congruent modulo 2^bits *)
+Theorem C15_int_cast_exact_iff_representable :
+  forall (F : Type) (X : Ext F) (s u : nt) (z : Z),
+    is_float u = false ->
+    (as_nn X I32 u = z_to X I32 u /\ as_nn X I64 u = z_to X I64 u /\ as_nn X U8 u = z_to X U8 u /\
+     as_nn X U64 u = z_to X U64 u /\ as_nn X Usize u = z_to X Usize u /\ as_nn X Isize u = z_to X Isize u) /\
+    match u return nval u -> Prop with
+    | F32 | F64 => fun _ => True
+    | _ => fun r => (nt_eqb s u = true -> r = z) /\
+                    (nt_eqb s u = false ->
+                       imin u <= r <= imax u /\ (r = z <-> imin u <= z <= imax u) /\
+                       exists k, r = z + k * (imax u - imin u + 1))
+    end (z_to X s u z).
+Proof. intros F X s u z Hu. split; [apply int_source_as_is_z_to|apply int_as_exact_iff; exact Hu]. Qed.
+
+(* (A9) the comparators never panic: no premise on the values (also Some(NaN), non-canonical), no law on the floats *)
+Theorem C15_sort_cmp_never_panics :
+  forall (F : Type) (X : Ext F) (t : ty) (a b : val t),
+    (exists o, sort_cmp X t a b = Ok o) /\ (exists o, sort_cmp_rev X t a b = Ok o).
+Proof. exact @sort_cmp_never_panics. Qed.
+
+(* (A10) the unit-changing casts DateTime<A> -> DateTime<B> (time_unit_cast! = into_unit, all 16 unit pairs): NaT stays
+         NaT, a non-null never becomes NaT, the only failure is the overflow panic of a refinement *)
+Theorem C15_unit_cast_nullness :
+  forall (u t : Time.tunit) (x : Z),
+    Time.into_unit u t Time.NaT = Ok Time.NaT /\
+    (forall y, Time.in_i64 x = true -> Time.into_unit u t x = Ok y -> Time.is_nat y = Time.is_nat x) /\
+    (forall k, Time.into_unit u t x = Panic k ->
+       k = Overflow /\ Time.is_nat x = false /\ Time.unit_ns t < Time.unit_ns u).
+Proof.
+  intros u t x. split; [apply unit_cast_null|]. split; [intros y; apply unit_cast_nullness|].
+  intros k; apply unit_cast_panic_only_overflow.
+Qed.
+
+(* (A11) IsNone for Vec<T>: the null is the empty vector; the predicates agree; wrap / unwrap are the identity *)
+Theorem C15_vec_isnone_coherent :
+  forall (T : Type) (v : list T),
+    vec_not_none v = negb (vec_is_none v) /\
+    (vec_to_opt v = None <-> vec_is_none v = true) /\
+    vec_as_opt v = vec_to_opt v /\
+    (forall x, vec_to_opt v = Some x -> vec_unwrap v = Ok x /\ x = v) /\
+    vec_is_none (@vec_none T) = true /\
+    (vec_is_none v = true <-> v = []) /\
+    (vec_is_none v = false -> vec_to_opt (vec_from_inner v) = Some v /\ vec_from_opt (vec_to_opt v) = v) /\
+    vec_from_opt (@None (list T)) = [].
+Proof. exact @vec_isnone_coherent. Qed.
+
+(* (A12) the coverage table: the 676 ordered pairs split into 191 not implemented, 154 implemented with a target that
+         cannot represent a null ((7), (A3)), 5 of known-finding class 1, the 2 parsers of C18 (compared only), and 324
+         to which (5) and (6) apply *)
+Theorem C15_pair_coverage :
+  count_class 0 = 191%nat /\ count_class 1 = 154%nat /\ count_class 2 = 5%nat /\ count_class 3 = 2%nat /\
+  count_class 4 = 324%nat.
+Proof. exact pair_coverage. Qed.
+
+(* ---- non-vacuity of the audit theorems ------------------------------------------------------------- *)
+Example C15_example_sentinel :
+  cast XZ (Plain (N I64)) (Plain TD) i64min = Ok (i32min, 0) /\ src_i64 XZ (Plain (N I64)) i64min = Some i64min /\
+  cast XZ (Opt (N F64)) (Plain TM) (Some (Some i64min)) = Ok i64min /\
+  cast XZ (Plain (N I32)) (Plain DT) 5 = Ok 5 /\ num_src (Opt (N F64)) = true /\ is_time_ty (Plain TM) = true.
+Proof. vm_compute. repeat split. Qed.
+
+Example C15_example_timedelta_i64 :
+  td_micros (0, 7999) = Some 7 /\ td_micros (0, -7999) = Some (-7) /\ td_micros (0, 2 ^ 63 * 1000) = None /\
+  cast XZ (Plain TD) (Opt (N I64)) (0, 2 ^ 63 * 1000) = Ok None /\
+  cast XZ (Plain TD) (Plain (N I32)) (3, 0) = Panic OtherPanic.
+Proof. vm_compute. repeat split. Qed.
+
+Example C15_example_null_to_nonnullable :
+  implemented (Opt (N F64)) (Plain (N I32)) = true /\ b_can_null (N I32) = false /\
+  cast XZ (Opt (N F64)) (Plain (N I32)) None = Panic OtherPanic /\
+  cast XZ (Plain Str) (Plain Bool) s_None = Panic OtherPanic /\
+  cast XZ (Plain TM) (Plain (N U8)) i64min = Panic OtherPanic /\
+  null_panics (Opt Bool) (Plain DT) = true /\ cast XZ (Opt Bool) (Plain DT) None = Panic OtherPanic /\
+  null_panics (Opt (N I32)) (Plain DT) = false /\ cast XZ (Opt (N I32)) (Plain DT) None = Ok i64min.
+Proof. vm_compute. repeat split. Qed.
+
+Example C15_example_values :
+  cast XZ (Plain (N I32)) (Plain (N U8)) 255 = Ok 255 /\ cast XZ (Plain (N I32)) (Plain (N U8)) 256 = Ok 0 /\
+  cast XZ (Plain (N I64)) (Plain (N I32)) (2 ^ 31) = Ok (- 2 ^ 31) /\
+  cast XZ (Plain (N I32)) (Plain Bool) 1 = Ok true /\ cast XZ (Plain (N I32)) (Plain Bool) 2 = Panic OtherPanic /\
+  n_abs XZ I32 (-5) = Ok 5 /\ n_abs XZ I32 (imin I32) = Panic Overflow /\ n_abs XZ U8 200 = Ok 200 /\
+  map_ XZ (Plain (N F64)) (Plain (N F64)) (fun _ => Some 1) None = Ok (Some 1) /\
+  map_ XZ (Opt (N F64)) (Plain (N F64)) (fun _ => Some 1) None = Ok None.
+Proof. vm_compute. repeat split. Qed.
+
+Example C15_example_unit_cast :
+  Time.into_unit Time.Nano Time.Milli (-1) = Ok (-1) /\ Time.into_unit Time.Sec Time.Nano (2 ^ 62) = Panic Overflow /\
+  Time.into_unit Time.Milli Time.Nano Time.NaT = Ok Time.NaT /\ Time.in_i64 (-1) = true.
+Proof. vm_compute. repeat split. Qed.
+
 Print Assumptions C15_predicates_coherent.
 Print Assumptions C15_none_is_null.
 Print Assumptions C15_wrap_unwrap_identity.
@@ -260,3 +479,18 @@ Print Assumptions C15_sort_cmp_orders_values.
 Print Assumptions C15_inner_order_is_value_order.
 Print Assumptions C15_sort_cmp_nulls_last.
 Print Assumptions C15_text_null_class_refuted.
+Print Assumptions C15_cast_to_time_null_iff_sentinel.
+Print Assumptions C15_cast_timedelta_to_i64.
+Print Assumptions C15_cast_null_to_nonnullable_panics.
+Print Assumptions C15_cast_null_total_or_panics_by_design.
+Print Assumptions C15_vabs_values.
+Print Assumptions C15_vabs_rewraps_and_panics_only_on_signed_min.
+Print Assumptions C15_map_spec.
+Print Assumptions C15_map_plain_source_applies_f_to_nulls_too.
+Print Assumptions C15_cast_bool_values.
+Print Assumptions C15_cast_numeric_to_bool.
+Print Assumptions C15_int_cast_exact_iff_representable.
+Print Assumptions C15_sort_cmp_never_panics.
+Print Assumptions C15_unit_cast_nullness.
+Print Assumptions C15_vec_isnone_coherent.
+Print Assumptions C15_pair_coverage.
